@@ -87,6 +87,31 @@ type treeJob struct {
 	Family   string  // "", "variants", "scope", "filterkind", "guard", "long"
 	Guard    bool    // the alphabet also holds the wrong-method calls of the two handlers
 	Explicit [][]int // explicit histories instead of every sequence of length Len
+	FailQ    bool    // the alphabet also holds the queries whose client goes away after k bytes
+}
+
+// failCuts: where the client of a failing query goes away, in bytes of the would-be report (n = its size).
+var failCuts = []string{"0 bytes", "1 byte", "25 bytes", "half", "all but the last byte"}
+
+func failCut(kind, n int) int {
+	k := 0
+	switch kind {
+	case 1:
+		k = 1
+	case 2:
+		k = 25
+	case 3:
+		k = n / 2
+	case 4:
+		k = n - 1
+	}
+	if k > n-1 {
+		k = n - 1
+	}
+	if k < 0 {
+		k = 0
+	}
+	return k
 }
 
 // guardSyms are the wrong-method calls (symbols after GET /verify and POST /verify/reset).
@@ -100,6 +125,9 @@ func (j *treeJob) nsyms() int {
 	k := len(j.Alpha) + 2
 	if j.Guard {
 		k += len(guardSyms)
+	}
+	if j.FailQ {
+		k += len(failCuts)
 	}
 	return k
 }
@@ -121,7 +149,7 @@ func (j *treeJob) sigPrefix() string {
 
 // splitFamily splits a signature of an added family into the family prefix and the rest ("" for the original ones).
 func splitFamily(sig string) (fam, base string) {
-	for _, f := range []string{"variants:", "scope:", "guard:", "long:"} {
+	for _, f := range []string{"variants:", "scope:", "guard:", "long:", "failq:"} {
 		if strings.HasPrefix(sig, f) {
 			return f, strings.TrimPrefix(sig, f)
 		}
@@ -184,6 +212,13 @@ func extJobs(tier string) []treeJob {
 	addFam("scope", scen.ScopeTrees(tier), L, false)
 	addFam("filterkind", scen.FilterKindTrees(tier), L, false)
 	addFam("guard", scen.GuardTrees(), L, true)
+	// failq: a query whose ResponseWriter fails after k bytes is neither lost state nor a reset - every later
+	// complete query answers exactly the model's report. Histories of length <= 4 in both tiers.
+	for _, t := range scen.FailQTrees() {
+		j := treeJob{Tree: t, Alpha: scen.Alphabet(t), Len: 4, Family: "failq", FailQ: true}
+		j.Cost = pow(j.nsyms(), j.Len)
+		jobs = append(jobs, j)
+	}
 	// long: runs of one plain message - N times, query, reset, N mod 3 times, (final query) - for every N up to a
 	// bound beyond the growth steps of a slice (1, 2, 4, 8, 16 ...; thorough: ... 128)
 	nmax := 20
@@ -290,6 +325,9 @@ func symName(j *treeJob, s int) string {
 	case s == len(j.Alpha)+1:
 		return "POST /verify/reset"
 	}
+	if j.FailQ {
+		return "GET /verify, client gone after " + failCuts[s-len(j.Alpha)-2] + " of the report"
+	}
 	g := guardSyms[s-len(j.Alpha)-2]
 	return g.Method + " " + g.Path
 }
@@ -333,8 +371,15 @@ func runHistory(out *shardOut, j *treeJob, js []byte, pool *scen.Pool, seq []int
 		}
 		out.violateSeq(rank+step, j.sigPrefix()+sig, func() (string, interface{}) { return desc(), replay(step) }, j, seq[:n])
 	}
+	lastRaw := ""
+	if j.FailQ {
+		// the handler may keep buffers between calls (a pool): complete queries at the end of the history, also
+		// when it is cut short by a violation, so that nothing of this history reaches the next one
+		defer func() { h.Query(); h.Query() }()
+	}
 	query := func(step int) bool {
 		toks, raw, err := h.Query()
+		lastRaw = raw
 		out.Counters["seq_queries_compared"]++
 		if err != nil {
 			sig := "verify:bad_response"
@@ -343,6 +388,13 @@ func runHistory(out *shardOut, j *treeJob, js []byte, pool *scen.Pool, seq []int
 			}
 			violate(step, sig, func() string {
 				return fmt.Sprintf("tree %s history %v: GET /verify: %v (body %q)", j.Tree, histNames(j, seq[:min(step+1, len(seq))]), err, raw)
+			})
+			return false
+		}
+		if j.FailQ && strings.TrimLeft(raw, " \t\r\n") != raw {
+			// remains of an earlier, interrupted answer ahead of the report (white space does not stop a JSON parser)
+			violate(step, "verify:bytes_before_report", func() string {
+				return fmt.Sprintf("tree %s history %v: GET /verify answered %q: bytes ahead of the JSON document", j.Tree, histNames(j, seq[:min(step+1, len(seq))]), raw)
 			})
 			return false
 		}
@@ -384,6 +436,26 @@ func runHistory(out *shardOut, j *treeJob, js []byte, pool *scen.Pool, seq []int
 			md.Traffic(m, i+1)
 		case s == len(j.Alpha):
 			if !query(i) {
+				return i
+			}
+		case j.FailQ && s >= len(j.Alpha)+2:
+			// a complete (judged) query gives the size n of the report, then the same query is made by a client that
+			// goes away after k bytes; the model does not change
+			if !query(i) {
+				return i
+			}
+			cut := failCut(s-len(j.Alpha)-2, len(lastRaw))
+			got, err := h.QueryFailing(cut)
+			out.Counters["seq_failing_queries"]++
+			if err != nil || !strings.HasPrefix(lastRaw, got) {
+				sig := "failing_query:partial_report_not_a_prefix"
+				if err != nil {
+					sig = "panic:failing_query"
+				}
+				full := lastRaw
+				violate(i, sig, func() string {
+					return fmt.Sprintf("tree %s history %v: the client took %q (%v) of the report %q", j.Tree, histNames(j, seq[:i+1]), got, err, full)
+				})
 				return i
 			}
 		case s >= len(j.Alpha)+2:
@@ -1300,7 +1372,7 @@ func main() {
 	}
 	maxN, lenFor := seqBounds(tier)
 	var extTrees int64
-	for _, f := range []string{"variants", "scope", "filterkind", "guard", "long"} {
+	for _, f := range []string{"variants", "scope", "filterkind", "guard", "long", "failq"} {
 		extTrees += rep.Counter("fam_" + f + "_trees")
 	}
 	rep.Coverage["states"] = rep.Counter("seq_states") + rep.Counter("conc_distinct_histories")
@@ -1316,13 +1388,14 @@ func main() {
 	rep.Coverage["race_pass"] = map[string]interface{}{"scenarios": rr.Scenarios, "iterations": rr.Iterations, "reports": len(rr.Reports), "signatures": raceSigs, "seconds": rr.Seconds, "error": rr.Err}
 	rep.Coverage["exhaustive"] = rep.Incomplete == ""
 	fams := map[string]interface{}{}
-	for _, f := range []string{"variants", "scope", "filterkind", "guard", "long"} {
+	for _, f := range []string{"variants", "scope", "filterkind", "guard", "long", "failq"} {
 		fams[f] = map[string]int64{"trees": rep.Counter("fam_" + f + "_trees"), "histories": rep.Counter("fam_" + f + "_histories"), "cpu_ms": rep.Counter("cpu_ms_fam_" + f),
 			"trees_with_all_histories_of_length_2": rep.Counter("fam_" + f + "_trees_len2"), "trees_with_all_histories_of_length_3": rep.Counter("fam_" + f + "_trees_len3"), "trees_with_all_histories_of_length_4": rep.Counter("fam_" + f + "_trees_len4")}
 	}
 	rep.Coverage["added_families"] = fams
 	rep.Coverage["wrong_method_calls"] = rep.Counter("seq_wrong_method_calls")
-	rep.Coverage["rule"] = "sequential: every numbered tree with <= n nodes x every sequence of exactly L symbols over the tree's alphabet (all routing x met/unmet decision paths as plain messages; API-marked messages per routing path that reaches a verifier, with all expectations unmet, and also all met when a pingback verifier is present; GET /verify; POST /verify/reset), checked step by step so every shorter history is covered as a prefix, plus one final query; extensions of a failing prefix are skipped. A history is non-trivial when some query in it (explicit or final) has an expected answer different from the fresh tree's. Added families (same enumeration, judged by the concrete reference model of scen/ext.go; counts in added_families): variants = every verifier kind in every listed parameterisation (header: value / presence only / lower-case name; query: value / presence only; url: host / scheme+host+path; pingback: path / scheme+host+path) alone, in a group and in either branch of a filter x the original alphabet plus every shape (wrong value, two values of which the second is wanted, wanted on one side only, empty value, other scheme, other path) x {rest unmet, rest met} x {plain, API}; scope = every listed tree with <= 3 nodes in which some node carries a scope (absent, request, response, both, empty list; every combination the kinds accept) and aggregating groups; filterkind = header / cookie / url-regex / url / method filters with verifiers in the true, else and both branches, the alphabet extended by responses that take the other branch than their request (header and cookie filters decide that from the response); guard = the alphabet extended by POST /verify, GET and PUT /verify/reset (405 + Allow, nothing changes); long = for every plain message m and every N up to the bound: m^N, query, reset, m^(N mod 3), query. concurrent: every scenario in conc_scenarios_detail, each either over all interleavings of the rewritten lock operations (preemption_bound 0) or over all schedules up to the stated preemption bound."
+	rep.Coverage["failing_queries"] = rep.Counter("seq_failing_queries")
+	rep.Coverage["rule"] = "sequential: every numbered tree with <= n nodes x every sequence of exactly L symbols over the tree's alphabet (all routing x met/unmet decision paths as plain messages; API-marked messages per routing path that reaches a verifier, with all expectations unmet, and also all met when a pingback verifier is present; GET /verify; POST /verify/reset), checked step by step so every shorter history is covered as a prefix, plus one final query; extensions of a failing prefix are skipped. A history is non-trivial when some query in it (explicit or final) has an expected answer different from the fresh tree's. Added families (same enumeration, judged by the concrete reference model of scen/ext.go; counts in added_families): variants = every verifier kind in every listed parameterisation (header: value / presence only / lower-case name; query: value / presence only; url: host / scheme+host+path; pingback: path / scheme+host+path) alone, in a group and in either branch of a filter x the original alphabet plus every shape (wrong value, two values of which the second is wanted, wanted on one side only, empty value, other scheme, other path) x {rest unmet, rest met} x {plain, API}; scope = every listed tree with <= 3 nodes in which some node carries a scope (absent, request, response, both, empty list; every combination the kinds accept) and aggregating groups; filterkind = header / cookie / url-regex / url / method filters with verifiers in the true, else and both branches, the alphabet extended by responses that take the other branch than their request (header and cookie filters decide that from the response); guard = the alphabet extended by POST /verify, GET and PUT /verify/reset (405 + Allow, nothing changes); long = for every plain message m and every N up to the bound: m^N, query, reset, m^(N mod 3), query; failq = trees with one or two verifiers, the alphabet extended by GET /verify from a client that goes away after k bytes of the report (k = 0, 1, 25, half, all but the last byte; a judged complete query first measures the report), all histories of length 4: every later complete query must answer exactly the model's report as one valid JSON document. concurrent: every scenario in conc_scenarios_detail, each either over all interleavings of the rewritten lock operations (preemption_bound 0) or over all schedules up to the stated preemption bound."
 	rep.Coverage["bounds"] = fmt.Sprintf("sequential: all %d trees with <= %d nodes x all histories of length <= %d over the per-tree alphabet; added families: %d trees, all histories of the largest length <= %d that stays under the per-tree cap (see added_families; long: N <= %d); concurrent: %d scenarios explored over all interleavings of their lock operations (pairs of threads and small triples: traffic/query/reset) + %d scenarios (2-3 traffic threads x 1-2 exchanges, query thread, optional reset thread) explored over all schedules with at most 2 (quick) / 3 (thorough) preemptions; race pass: %d scenarios, %d free-running runs under -race", len(jobs)-int(extTrees), maxN, lenFor(maxN), extTrees, extLen(tier), map[bool]int{false: 20, true: 132}[tier == "thorough"], rep.Counter("conc_scenarios_all_interleavings"), rep.Counter("conc_scenarios_preemption_bounded"), rr.Scenarios, rr.Iterations)
 	rep.Assumptions = []string{
 		"traffic is applied as the proxy applies it (martian context linked to the request, ModifyRequest then ModifyResponse on the configurable martianhttp.Modifier); no sockets are involved; API requests are marked through the context exactly like api.Forwarder does",
